@@ -229,10 +229,41 @@ theorem pfirst_idSucc_none_of_none (ts : TS T D) (n : T) (x : D)
   intro r hr
   exact h r (List.mem_filter.mp hr).1
 
+/-- the nodes of a typeset: a set containing the root and closed under the relations -/
+structure Nodes (ts : TS T D) (N : T → Prop) (root : T) : Prop where
+  rootIn : N root
+  step : ∀ n r, N n → r ∈ ts.succ n → N r.dst
+  idpath : ∀ t, N t → IdPath ts root t
+
+theorem path_in_nodes (ts : TS T D) (N : T → Prop) (hstep : ∀ n r, N n → r ∈ ts.succ n → N r.dst) :
+    ∀ f n x, N n → ∀ t ∈ (ptraverse ts.succ f n x).2, N t := by
+  intro f
+  induction f with
+  | zero => intro n x hn t ht; simp [ptraverse] at ht; rw [ht]; exact hn
+  | succ f ih =>
+    intro n x hn t ht
+    simp only [ptraverse] at ht
+    cases hfa : pfirst (ts.succ n) x with
+    | none => rw [hfa] at ht; simp at ht; rw [ht]; exact hn
+    | some r =>
+      rw [hfa] at ht
+      have hmem : r ∈ ts.succ n := List.mem_of_find?_eq_some hfa
+      cases ht with
+      | head => exact hn
+      | tail _ ht => exact ih r.dst (r.xform x) (hstep n r hn hmem) t ht
+
+theorem plast_in_nodes (ts : TS T D) (N : T → Prop) (hstep : ∀ n r, N n → r ∈ ts.succ n → N r.dst)
+    (f : Nat) (n : T) (x : D) (hn : N n) : N (plast n (ptraverse ts.succ f n x).2) := by
+  apply path_in_nodes ts N hstep f n x hn
+  simp only [plast]
+  cases hl : (ptraverse ts.succ f n x).2.getLast? with
+  | none => exact absurd (List.getLast?_eq_none_iff.mp hl) (ptraverse_path_ne_nil _ _ _ _)
+  | some v => exact List.mem_of_getLast? hl
+
 /-- **Inference is sound** (C03): the cast datum is in the inferred type, and detecting the cast
 datum — from the root, identity relations only — gives exactly the inferred type and leaves the
 datum unchanged. -/
-theorem infer_sound (ts : TS T D) {I : D → Prop} (wf : ts.WF I) (root : T) (hroot : ∀ t, IdPath ts root t)
+theorem infer_sound (ts : TS T D) {I : D → Prop} (wf : ts.WF I) (root : T) (N : T → Prop) (hN : Nodes ts N root)
     (f : Nat) (hf : ts.h root < f) (x : D) (hI : I x) (hx : ts.contains root x = true) :
     let res := ptraverse ts.succ f root x
     let t := plast root res.2
@@ -243,7 +274,7 @@ theorem infer_sound (ts : TS T D) {I : D → Prop} (wf : ts.WF I) (root : T) (hr
   have ⟨hc, hstop, hI'⟩ := infer_lands ts wf f root x hf hI hx
   refine ⟨hc, ?_⟩
   exact detect_follows_chain ts wf t res.1 hI' hc (pfirst_idSucc_none_of_none ts t res.1 hstop)
-    root (hroot t) f hf
+    root (hN.idpath t (plast_in_nodes ts N hN.step f root x hN.rootIn)) f hf
 
 /-! ### fixpoint (C04): inferring again from the cast datum follows the identity chain only and
 returns the same datum -/
@@ -277,13 +308,14 @@ theorem infer_follows_chain (ts : TS T D) {I : D → Prop} (wf : ts.WF I) (t : T
       rw [plast_irrel a r.dst _ (ptraverse_path_ne_nil _ _ _ _)]
       exact this
 
-theorem infer_fixpoint (ts : TS T D) {I : D → Prop} (wf : ts.WF I) (root : T) (hroot : ∀ t, IdPath ts root t)
+theorem infer_fixpoint (ts : TS T D) {I : D → Prop} (wf : ts.WF I) (root : T) (N : T → Prop) (hN : Nodes ts N root)
     (f : Nat) (hf : ts.h root < f) (x : D) (hI : I x) (hx : ts.contains root x = true) :
     let res := ptraverse ts.succ f root x
     (ptraverse ts.succ f root res.1).1 = res.1 ∧
     plast root (ptraverse ts.succ f root res.1).2 = plast root res.2 := by
   intro res
   have ⟨hc, hstop, hI'⟩ := infer_lands ts wf f root x hf hI hx
-  exact infer_follows_chain ts wf _ res.1 hI' hc hstop root (hroot _) f hf
+  exact infer_follows_chain ts wf _ res.1 hI' hc hstop root
+    (hN.idpath _ (plast_in_nodes ts N hN.step f root x hN.rootIn)) f hf
 
 end V
